@@ -290,6 +290,16 @@ def closure_tag(lam: ast.Lambda, factory_env: dict, node_subject: str):
     params = [a.arg for a in lam.args.args]
     x = params[0]
     defaults = dict(zip(params[::-1], lam.args.defaults[::-1]))
+    local_env = {}
+    body_expr = lam.body
+    if isinstance(lam, ast.FunctionDef):
+        rets = [n for n in walk_local(lam, include_self=False) if isinstance(n, ast.Return) and n.value is not None]
+        if len(rets) != 1:
+            raise Unknown(f"closure {lam.name} has {len(rets)} return statements")
+        body_expr = rets[0].value
+        for n in walk_local(lam, include_self=False):
+            if isinstance(n, ast.Assign) and len(n.targets) == 1 and isinstance(n.targets[0], ast.Name):
+                local_env[n.targets[0].id] = n.value
 
     def origin(name):
         d = defaults.get(name)
@@ -309,6 +319,12 @@ def closure_tag(lam: ast.Lambda, factory_env: dict, node_subject: str):
                 return a.attr
         if isinstance(e, ast.Name):
             return slot_from_build(factory_env.get(e.id))
+        # aliases of operand slots: left, right = expr.left, expr.right
+        for a in ast.walk(e):
+            if isinstance(a, ast.Name) and a.id in factory_env and a.id != node_subject:
+                o = factory_env[a.id]
+                if isinstance(o, ast.Attribute) and isinstance(o.value, ast.Name) and o.value.id == node_subject:
+                    return o.attr
         return None
 
     def vec(n):
@@ -350,4 +366,4 @@ def closure_tag(lam: ast.Lambda, factory_env: dict, node_subject: str):
                     return ("K", "op")
         return None
 
-    return Canon({}, vec, scalar).c(lam.body)
+    return Canon(local_env, vec, scalar).c(body_expr)
